@@ -6,6 +6,37 @@ def edge_key(k):
     return (t, getattr(k, "index", None), getattr(k, "name", None))
 
 
+def _fp(v, depth=0):
+    """Fingerprint of an attribute value: values for plain data, identities + contents for containers, identity for other objects."""
+    if isinstance(v, (int, float, str, bool, bytes, type(None))):
+        return ("val", repr(v))
+    if isinstance(v, tuple) and depth < 2:
+        return ("tuple",) + tuple(_fp(x, depth + 1) for x in v)
+    if isinstance(v, (set, frozenset)):
+        return ("set", id(v), tuple(sorted(repr(_fp(x, 2)) for x in v)))
+    if isinstance(v, dict):
+        return ("dict", id(v), tuple(sorted((repr(_fp(k, 2)), id(x)) for k, x in v.items())))
+    if isinstance(v, list):
+        return ("list", id(v), tuple(id(x) if not isinstance(x, (int, str, float, bool, type(None))) else repr(x) for x in v))
+    return ("obj", type(v).__name__, id(v))
+
+
+def other_state(obj, known):
+    """Every attribute of obj (instance dict and slots) that the structural snapshot does not already cover - whatever state a future version
+    adds to Plan / Registry, a run may not change it in the caller's object and copies may not share it mutably."""
+    names = set(getattr(obj, "__dict__", {}) or {})
+    for c in type(obj).__mro__:
+        s = c.__dict__.get("__slots__", ())
+        names.update([s] if isinstance(s, str) else s)
+    out = []
+    for nme in sorted(names - set(known) - {"__dict__", "__weakref__"}):
+        try:
+            out.append((nme, _fp(getattr(obj, nme))))
+        except AttributeError:
+            out.append((nme, ("unset",)))
+    return tuple(out)
+
+
 def plan_snapshot(plan):
     g = plan.graph
     nodes = []
@@ -16,7 +47,8 @@ def plan_snapshot(plan):
     for u, v, k, d in g.edges(keys=True, data=True):
         edges.append((id(u), id(v), edge_key(k), id(k), tuple(sorted((str(a), id(b)) for a, b in d.items()))))
     edges.sort()
-    return {"nodes": nodes, "edges": edges, "scope": plan._scope, "graph_id": id(g), "graph_attrs": tuple(sorted(g.graph.items()))}
+    return {"nodes": nodes, "edges": edges, "scope": plan._scope, "graph_id": id(g), "graph_attrs": tuple(sorted(g.graph.items())),
+            "other_attributes": other_state(plan, ("graph", "_scope"))}
 
 
 def registry_snapshot(reg):
@@ -24,7 +56,8 @@ def registry_snapshot(reg):
         return None
     out = []
     for n, rv in reg.mapping.items():
-        out.append((id(n), id(rv), id(rv.value_store), rv.is_source, id(rv.stack_frame)))
+        out.append((id(n), id(rv), id(rv.value_store), rv.is_source, id(rv.stack_frame)) + (other_state(rv, ("value_store", "is_source", "stack_frame")),))
+    out.append(("<other attributes of the Registry>", other_state(reg, ("mapping",)), 0, None, 0, ()))
     return out
 
 
